@@ -802,8 +802,14 @@ func ExecutePlan(plan *Plan, p ExecuteParams) (result *Result) {
 	resultChannel := make(chan *Result, 2)
 	go func() {
 		out := &Result{}
+		var eCtx *executionContext
 		defer func() {
 			if err := recover(); err != nil {
+				// a non-null violation reached the root: no data, but the
+				// errors of the fields that had failed before are still reported
+				if eCtx != nil {
+					out.Errors = append(out.Errors, eCtx.Errors...)
+				}
 				if e, ok := err.(error); ok {
 					out.Errors = append(out.Errors, gqlerrors.FormatError(e))
 				} else {
@@ -826,7 +832,7 @@ func ExecutePlan(plan *Plan, p ExecuteParams) (result *Result) {
 			return
 		}
 
-		eCtx := &executionContext{
+		eCtx = &executionContext{
 			Schema:         execSchema,
 			Fragments:      plan.fragments,
 			Root:           p.Root,
@@ -1094,11 +1100,20 @@ func completePlannedThunkValueCatchingError(eCtx *executionContext, returnType T
 		err := gqlerrors.NewFormattedError("Error resolving func. Expected `func() (interface{}, error)` signature")
 		panic(gqlerrors.FormatError(err))
 	}
-	fnResult, err := propertyFn()
-	if err != nil {
-		panic(gqlerrors.FormatError(err))
+	for {
+		fnResult, err := propertyFn()
+		if err != nil {
+			panic(gqlerrors.FormatError(err))
+		}
+		result = fnResult
+		// a deferred result may itself be deferred: force it here, the
+		// dethunk pass calls each thunk it finds only once
+		next, again := fnResult.(func() (interface{}, error))
+		if !again {
+			break
+		}
+		propertyFn = next
 	}
-	result = fnResult
 	if rt, ok := returnType.(*NonNull); ok {
 		return completePlannedValue(eCtx, rt, fp, info, path, result)
 	}
